@@ -19,6 +19,11 @@ def interstitial_pool(ck, rng, n, random_frac=0.6, dims=(2, 3), names=None, forc
             for nm in fl[:max(3, n // 2)]:
                 crys, chem = gen.named(nm)
                 if crys.dim in dims: yield nm + "~perm", gen.shuffled(crys, rng), chem
+            # site vectors related by rotations of order >= 3 and not along the axis (FullVectorBasis must carry g^-1 v, not g v)
+            rot_names = [nm for nm in ("sq-x4", "cub-x6") if gen.named(nm)[0].dim in dims]
+            for nm in (rot_names if n >= 20 else rng.sample(rot_names, min(2, len(rot_names)))):
+                crys, chem = gen.named(nm)
+                yield nm + "~perm", gen.shuffled(crys, rng), chem
             if 3 in dims:
                 # sites whose site symmetry is a single mirror, in Cartesian frames where the mirror normal is neither along
                 # an axis nor in a coordinate plane (vectlist / VectorBasis branches on the components of the normal)
@@ -32,12 +37,13 @@ def interstitial_pool(ck, rng, n, random_frac=0.6, dims=(2, 3), names=None, forc
     for label, crys, chem in source():
         if out >= n: break
         try:
-            net = gen.percolating_network(crys, chem, rng, **(dict(maxshell=8, maxjumps=120) if label.startswith("mono-m") else {}))
+            net = gen.percolating_network(crys, chem, rng, **(dict(maxshell=8, maxjumps=120) if label.startswith(("mono-m", "sq-x4", "cub-x6", "hex-x6")) else {}))
         except Exception:
             net = None
         if net is None: continue
         cut, sl, jn = net
-        d = OnsagerCalc.Interstitial(crys, chem, sl, jn)
+        from . import vm
+        d = vm.guard_inputs(OnsagerCalc.Interstitial(crys, chem, sl, jn), ["diffusivity", "elastodiffusion", "losstensors"])
         out += 1
         yield label, crys, chem, cut, sl, jn, d
 
